@@ -7,7 +7,7 @@ fields, resolving references through the per-IR UUID table to the very object re
 DeserializationError when the referenced node is missing or of the wrong kind."""
 import z3
 from pyvc.contracts import Contract
-from pyvc.core import (SV, Val, VNone, VInt, VBool, VRef, VStr, VUuid, VEnum, VPair, is_VNone, is_VInt, is_VBool, is_VRef, is_VStr,
+from pyvc.core import (SV, Val, VNone, VInt, VBool, VRef, VStr, VUuid, VEnum, VPair, fst, snd, is_VNone, is_VInt, is_VBool, is_VRef, is_VStr,
                        is_VUuid, is_VEnum, ival, bval, ref, uval, enum_, ecls, fresh, Int, to_val)
 from pyvc.iomodel import IoContract, BSeq, blob_seq, blob_val, oid, u2b, b2u, is_VOpaque
 from pyvc.pbmodel import RANGES
@@ -1029,8 +1029,8 @@ class IrToPbScalars(WriterBase):
     props = ("C02", "C01", "C17")
     params = {"self": "ref:IR"}
     selects = staticmethod(lambda self_cls, args, kwargs=None: False)
-    drop_stmt = staticmethod(lambda src: src.startswith(("proto_cfg.edges.extend(", "self._write_protobuf_aux_data(")))
-    part_note = "all statements except the fills of cfg.edges and aux_data"
+    drop_stmt = staticmethod(lambda src: src.startswith("self._write_protobuf_aux_data("))
+    part_note = "all statements except the fill of aux_data"
 
     def may_raise(self, c0, a):
         return {"Exception": z3.BoolVal(True)}
@@ -1038,8 +1038,11 @@ class IrToPbScalars(WriterBase):
     def __init__(self):
         super().__init__()
         from pyvc.schema import REGION_KEYS
-        self.modifies = lambda c0, a: dict(pbkeys(c0, "IR", "CFG", "Module", "ProxyBlock", "Section", "Symbol", "ByteInterval", "Block",
-                                                  "CodeBlock", "DataBlock", "SymbolicExpression", "SymAddrConst", "SymAddrAddr"),
+        # (no frame is claimed for message objects: the aggregate IR.cfg_nodes may allocate index objects, after which
+        # "did not exist at entry" can no longer be told from the allocation table; this contract is not used at call sites)
+        self.modifies = lambda c0, a: dict({k: None for k in pbkeys(c0, "IR", "CFG", "Edge", "EdgeLabel", "Module", "ProxyBlock",
+                                                                   "Section", "Symbol", "ByteInterval", "Block", "CodeBlock", "DataBlock",
+                                                                   "SymbolicExpression", "SymAddrConst", "SymAddrAddr")},
                                            **{k: None for k in REGION_KEYS})
 
     def region_invariant(self, c):
@@ -1062,6 +1065,17 @@ class IrToPbScalars(WriterBase):
         a2 = Args()
         a2["self"] = SV("ref", ref(z3.Select(items, j)), cls="Module")
         mp = ModuleToPbScalars().pre(c, a2)
+        from contracts.cfg import wf_cfg, E as cfg_E, LAB as cfg_LAB
+        from pyvc.nxmodel import e_src, e_tgt
+        cfg = ref(c.get("cfg", i))
+        e_ = fresh("e", Val)
+        lab = z3.Select(cfg_LAB(c, cfg), e_)
+        out["cfg_typed"] = z3.And(is_VRef(c.get("cfg", i)), wf_cfg(c, cfg), z3.ForAll([e_], z3.Implies(z3.Select(cfg_E(c, cfg), e_), z3.And(
+            is_VRef(e_src(e_)), is_VRef(e_tgt(e_)), z3.Select(c.arr("$alive"), ref(e_src(e_))), z3.Select(c.arr("$alive"), ref(e_tgt(e_))),
+            is_VUuid(c.get("uuid", ref(e_src(e_)))), is_VUuid(c.get("uuid", ref(e_tgt(e_)))),
+            z3.Implies(Val.is_VPair(lab), z3.And(
+                is_VEnum(fst(lab)), RANGES["int32"][0] <= enum_(fst(lab)), enum_(fst(lab)) <= RANGES["int32"][1],
+                is_VBool(fst(snd(lab))), is_VBool(fst(snd(snd(lab))))))))))
         out["modules_in_range"] = z3.ForAll([j], z3.Implies(z3.And(0 <= j, j < ln), z3.And(
             is_VRef(z3.Select(items, j)), z3.Select(c.arr("$alive"), ref(z3.Select(items, j))),
             c.kind(ref(z3.Select(items, j))) == c.eng.schema.class_id("Module"), *mp.values())))
@@ -1081,7 +1095,40 @@ class IrToPbScalars(WriterBase):
                 "cfg_present": is_VRef(cfg),
                 "vertices_name_every_cfg_node_of_the_ir": z3.ForAll([x], z3.Select(written, x) == z3.Exists(
                     [v], z3.And(member, x == uuid_blob(c0.get("uuid", ref(v)))))),
-                **self._modules(c0, c1, i, p)}
+                **self._modules(c0, c1, i, p), **self._edges(c0, c1, i, p)}
+
+    def lemmas(self, c0, c1, a, res):
+        from contracts.cfg import in_view, E as cfg_E, LAB as cfg_LAB
+        from pyvc.nxmodel import e_src, e_tgt
+        cfg = ref(c0.get("cfg", a.self.t))
+        e_ = fresh("e", Val)
+        return {"graph_edges_are_in_the_view": z3.ForAll([e_], z3.Implies(
+            z3.Select(cfg_E(c0, cfg), e_), in_view(c0, cfg, e_src(e_), e_tgt(e_), z3.Select(cfg_LAB(c0, cfg), e_))),
+            patterns=[z3.Select(cfg_E(c0, cfg), e_)])}
+
+    def _edges(self, c0, c1, i, p):
+        from contracts.cfg import in_view, E as cfg_E, LAB as cfg_LAB
+        from pyvc.nxmodel import e_src, e_tgt
+        e_ = fresh("e", Val)
+        cfgm = ref(f(c1, "IR", "cfg", p))
+        cfg = ref(c0.get("cfg", i))
+        R = z3.Select(c1.arr("pb.CFG.edges#set"), cfgm)
+        s_, t_, l_, y = fresh("s", Val), fresh("t", Val), fresh("l", Val), fresh("y", Val)
+
+        def same(ym):
+            lm = f(c1, "Edge", "label", ym)
+            return z3.And(f(c1, "Edge", "source_uuid", ym) == uuid_blob(c0.get("uuid", ref(s_))),
+                          f(c1, "Edge", "target_uuid", ym) == uuid_blob(c0.get("uuid", ref(t_))),
+                          z3.Implies(is_VNone(l_), is_VNone(lm)),
+                          z3.Implies(Val.is_VPair(l_), z3.And(
+                              is_VRef(lm), f(c1, "EdgeLabel", "type", ref(lm)) == VInt(enum_(fst(l_))),
+                              f(c1, "EdgeLabel", "conditional", ref(lm)) == fst(snd(l_)),
+                              f(c1, "EdgeLabel", "direct", ref(lm)) == fst(snd(snd(l_))))))
+        return {"every_edge_is_written": z3.ForAll([s_, t_, l_], z3.Implies(in_view(c0, cfg, s_, t_, l_), z3.Exists(
+                    [y], z3.And(z3.Select(R, y), is_VRef(y), same(ref(y)))))),
+                "every_written_edge_message_is_an_edge": z3.ForAll([y], z3.Implies(z3.Select(R, y), z3.Exists(
+                    [e_], z3.And(z3.Select(cfg_E(c0, cfg), e_), is_VRef(y),
+                                 z3.substitute(same(ref(y)), (s_, e_src(e_)), (t_, e_tgt(e_)), (l_, z3.Select(cfg_LAB(c0, cfg), e_)))))))}
 
     def _modules(self, c0, c1, i, p):
         j = fresh("j", Int)
